@@ -483,6 +483,29 @@ func runC10(cx *CheckCtx) {
 				}
 			}
 			callbackLast(cx, a, "nns.Transfer")
+			// the record is rewritten on every successful transfer to another account
+			{
+				var sameLits []int32
+				for id := int32(1); id < int32(len(a.lt.lits)); id++ {
+					l := a.lt.lits[id]
+					if l.Kind == KEq && (l.A == to || l.B == to) {
+						sameLits = append(sameLits, id)
+					}
+				}
+				okW := true
+				for _, ex := range a.Exits() {
+					if len(ex.Results) != 1 {
+						continue
+					}
+					if bv, isC := ex.Results[0].BoolConst(); isC && !bv {
+						continue
+					}
+					if !a.holdsAt(ex.State, append([]int32{a.eLit(namePut)}, sameLits...)...) {
+						okW = false
+					}
+				}
+				cx.decide(okW, "ownership-change", "nns.Transfer/written", "a successful transfer to another account has rewritten the record", "transfer can report success (and announce the transfer) without changing the owner", namePut.Where(w))
+			}
 			cx.decide(okT, "ownership-change", "nns.Transfer/Transfer/once", "one notification on every path returning true, no effect on paths returning false", "a transfer can succeed without (or fail with) its notification/effects", notif.Where(w))
 		}
 	}
@@ -876,6 +899,7 @@ func runC11(cx *CheckCtx) {
 		tb := a.tb
 		allowed := []string{"OWNER:" + paramTerm(tb, m, "name").pretty()}
 		adm := paramTerm(tb, m, "admin")
+		nAdminPut := 0
 		for _, s := range a.RealEffects() {
 			ok, _ := gated(a, s, witnessLits(a, allowed))
 			ok2, _ := gated(a, s, []int32{a.litNil(adm), a.litW(adm)})
@@ -889,7 +913,12 @@ func runC11(cx *CheckCtx) {
 				o := tb.field(v, "Owner")
 				ok := tb.field(v, "Admin") == adm && o.Op == "field" && o.Name == "Owner"
 				cx.decide(ok, "subject-agreement", "nns.SetAdmin/record", "stores the loaded record with Admin := admin", "setAdmin stores "+v.pretty(), s.Where(w))
+				cx.decide(executedAtEveryExit(a, s), "subject-agreement", "nns.SetAdmin/written", "every normal return has stored the record", "setAdmin can return normally without storing the new admin", s.Where(w))
+				nAdminPut++
 			}
+		}
+		if nAdminPut == 0 {
+			cx.violated("subject-agreement", "nns.SetAdmin/written", "setAdmin no longer stores the record", w.pos(m.Fn.Pos()))
 		}
 	}
 	if m := cx.method("nns", "Register"); m != nil {
@@ -1252,6 +1281,140 @@ func runC12(cx *CheckCtx) {
 		cx.count("getter_record_scans", nScan)
 		cx.floor("getter_record_scans", 3)
 	}
+	// ---- D10 the token a record belongs to: tokenIDFromName returns a proper suffix of the name
+	// only when that suffix is registered and unexpired, goes on to the next (shorter) suffix only
+	// when it is not, and returns the name itself only after every proper-suffix level was tried
+	if fn := nnsTokenIDFromNameFn(cx); fn != nil {
+		a := cx.analyze(&Query{Name: "std", Root: fn})
+		tb := a.tb
+		name := fnParam(tb, fn, 1)
+		var rd *Term
+		for _, s := range a.Sites(func(s *Site) bool { return s.Callee == "storage.Get" && keyFamily(s.Args[1]) == pfxName }) {
+			rd = s.Val
+		}
+		var ltLit int32
+		for id := int32(1); id < int32(len(a.lt.lits)); id++ {
+			l := a.lt.lits[id]
+			if l.Kind == KLt && l.A.contains(func(x *Term) bool { return isCall(x, "runtime.GetTime") }) && l.B.Op == "field" && l.B.Name == "Expiration" && rd != nil && l.B.Args[0].contains(func(x *Term) bool { return x == rd }) {
+				ltLit = id
+			}
+		}
+		ok, why := rd != nil && ltLit != 0, "the level record read or its expiry comparison is gone"
+		if ok {
+			why = ""
+			for _, ex := range a.Exits() {
+				if len(ex.Results) != 1 {
+					continue
+				}
+				r := ex.Results[0]
+				if r == name {
+					// only after exhaustion: the loop condition is false here
+					continue
+				}
+				if !(a.holdsAt(ex.State, -a.litNil(rd)) && a.holdsAt(ex.State, ltLit)) {
+					ok, why = false, "a suffix is returned as the owning token although it is not registered or has expired"
+				}
+			}
+			nHdr := 0
+			for _, h := range fn.Blocks {
+				if !isLoopHeader(h) {
+					continue
+				}
+				nHdr++
+				for _, p := range h.Preds {
+					if !h.Dominates(p) {
+						continue
+					}
+					if st := a.edgeState(tb.root, p, h); st != nil && !a.holdsAt(st, a.litNil(rd), -ltLit) {
+						ok, why = false, "a registered, unexpired suffix is passed over"
+					}
+				}
+				for _, e := range loopExits(h) {
+					if e.from == h {
+						continue
+					}
+					if _, isRet := e.to.Instrs[len(e.to.Instrs)-1].(*ssa.Return); isRet {
+						continue
+					}
+					// a break: only with the level found registered and unexpired
+					if st := a.edgeState(tb.root, e.from, e.to); st != nil && !(a.holdsAt(st, -a.litNil(rd)) && a.holdsAt(st, ltLit)) {
+						ok, why = false, "the loop over the suffixes can be left early"
+					}
+				}
+			}
+			if nHdr != 1 {
+				ok, why = false, "expected one loop over the suffix levels"
+			}
+		}
+		cx.decide(ok, "record-owner", "nns.tokenIDFromName", "the longest registered, unexpired proper suffix, else the name itself", "nns.tokenIDFromName: "+why+" — records are filed under (and read from) another token", w.pos(fn.Pos()))
+	}
+	// ---- D9 type filters: wherever records of a scan are collected under a test of their type
+	// against the requested type, the collecting append sits on the "equal" side of that test
+	if p := w.ByPath[modPrefix+nnsPkg]; p != nil {
+		nFil := 0
+		for _, f := range allFuncs(w.Prog.Package(p.Types)) {
+			if f.Blocks == nil || f.Parent() != nil {
+				continue
+			}
+			for _, b := range f.Blocks {
+				ifi, isIf := b.Instrs[len(b.Instrs)-1].(*ssa.If)
+				if !isIf {
+					continue
+				}
+				bo, isB := ifi.Cond.(*ssa.BinOp)
+				if !isB || (bo.Op != token.EQL && bo.Op != token.NEQ) {
+					continue
+				}
+				var item ssa.Value
+				isTypeField := func(v ssa.Value) bool {
+					u, ok := stripConv(v).(*ssa.UnOp)
+					if !ok || u.Op != token.MUL {
+						return false
+					}
+					fa, ok := u.X.(*ssa.FieldAddr)
+					if !ok || fieldName(fa.X.Type(), fa.Field) != "Type" {
+						return false
+					}
+					it, found := elementOf(u)
+					item = it
+					return found
+				}
+				_, xIsParam := stripConv(bo.X).(*ssa.Parameter)
+				_, yIsParam := stripConv(bo.Y).(*ssa.Parameter)
+				if !(isTypeField(bo.X) && yIsParam || isTypeField(bo.Y) && xIsParam) {
+					continue
+				}
+				eqSide := 0
+				if bo.Op == token.NEQ {
+					eqSide = 1
+				}
+				// appends of (a field of) the same item inside the same loop
+				hdr := innermostLoop(b)
+				if hdr == nil {
+					continue
+				}
+				for lb := range loopBlocks(hdr) {
+					for _, ins := range lb.Instrs {
+						c, isC := ins.(*ssa.Call)
+						if !isC {
+							continue
+						}
+						_, elems, isApp := appendOf(c)
+						if !isApp || len(elems) != 1 {
+							continue
+						}
+						if it, found := elementOf(elems[0]); !found || it != item {
+							continue
+						}
+						nFil++
+						cx.decide(viaEdge(b, eqSide, lb), "record-filter", fq(f), "records are collected on the 'type equals the requested type' side of the test", fq(f)+" collects records whose type differs from the requested one (the type test guards the wrong side)", w.pos(c.Pos()))
+					}
+				}
+			}
+		}
+		cx.count("type_filters", nFil)
+		cx.floor("type_filters", 2)
+	}
 	// ---- D6 scans are over fixed-width prefixes of the record family
 	if c := cx.contract("nns"); c != nil {
 		n := 0
@@ -1351,6 +1514,43 @@ func runC18(cx *CheckCtx) {
 				}
 			}
 		}
+		// polarity and converse: an iteration is completed only with the fragment accepted; the name is
+		// rejected only when its length is outside 3 … 255 or a fragment was refused
+		var cfVal *Term
+		var cfSite *Site
+		for _, s := range a.Sites(func(s *Site) bool { return s.Inlined && s.Ctx.parent == nil && siteInLoop(s) && len(s.Args) == 2 }) {
+			if fragFn != nil && s.Instr.(ssa.CallInstruction).Common().StaticCallee() == fragFn {
+				cfVal, cfSite = s.Val, s
+			}
+		}
+		okPol, whyPol := cfVal != nil, "the fragment check is gone"
+		if okPol {
+			whyPol = ""
+			if hdr := innermostLoop(cfSite.Instr.Block()); hdr != nil {
+				for _, p := range hdr.Preds {
+					if !hdr.Dominates(p) {
+						continue
+					}
+					if st := a.edgeState(tb.root, p, hdr); st != nil && !a.holdsAt(st, a.litB(cfVal)) {
+						okPol, whyPol = false, "the loop goes on to the next fragment although the check refused this one"
+					}
+				}
+			}
+			for _, ex := range a.Exits() {
+				if len(ex.Results) != 2 {
+					continue
+				}
+				if es, isC := ex.Results[1].BytesConst(); isC && es == "" {
+					continue
+				}
+				// a rejection: incompatible with "length in range and the current fragment accepted"
+				units := []int32{-a.litLtC(a.litLen(nm), 3), a.litLtC(a.litLen(nm), 256), a.litB(cfVal)}
+				if a.satisfiable(ex.State, units, nil) {
+					okPol, whyPol = false, "a name whose length is inside 3 … 255 and whose fragments are accepted can be rejected"
+				}
+			}
+		}
+		cx.decide(okPol, "limits", "nns.safeSplitAndCheck/accepts", "a fragment is passed only when accepted; rejection only for a length outside 3 … 255 or a refused fragment", "nns.safeSplitAndCheck: "+whyPol, w.pos(fn.Pos()))
 		cx.decide(okF, "limits", "nns.safeSplitAndCheck/fragments", "every fragment goes through checkFragment", "fragments are not individually validated", w.pos(fn.Pos()))
 		cx.decide(okRoot, "limits", "nns.safeSplitAndCheck/root-flag", "exactly the last fragment is validated with the root rules (≤ 16 bytes, leading letter)", "the root rules (≤ 16 bytes, leading letter) are not applied to exactly the last label of every validated name: CNAME data or names with a bad last label are accepted", w.pos(fn.Pos()))
 	}
@@ -1481,6 +1681,59 @@ func runC18(cx *CheckCtx) {
 					okMid, whyMid = false, "the loop can be left early without rejecting"
 				}
 			}
+			// converse: a fragment is rejected only when it is invalid — no "false" exit is compatible
+			// with a fragment that satisfies every documented condition
+			okRej, nRej := true, 0
+			{
+				lenV := a.litLen(v)
+				c0 := tb.mk("index", "", 0, v, tb.constInt(0))
+				last := tb.mk("index", "", 0, v, tb.binop(token.SUB, lenV, tb.constInt(1), intType))
+				alnum := func(x *Term) ([]int32, [][]int32) {
+					return []int32{-a.litLtC(x, '0'), a.litLtC(x, 'z'+1)}, [][]int32{{a.litLtC(x, '9'+1), -a.litLtC(x, 'a')}}
+				}
+				units := []int32{-a.litLtC(lenV, 1), a.litLtC(lenV, max+1)}
+				var clauses [][]int32
+				if root {
+					units = append(units, -a.litLtC(c0, 'a'), a.litLtC(c0, 'z'+1))
+				} else {
+					u, c := alnum(c0)
+					units, clauses = append(units, u...), append(clauses, c...)
+				}
+				u, c := alnum(last)
+				units, clauses = append(units, u...), append(clauses, c...)
+				// every byte read inside a loop: '-' or alnum
+				for id := int32(1); id < int32(len(a.lt.lits)); id++ {
+					l := a.lt.lits[id]
+					if (l.Kind == KEqC || l.Kind == KLtC) && l.A.Op == "index" && len(l.A.Args) == 2 && l.A.Args[0] == v && l.A.Args[1].Op == "phi" {
+						x := l.A
+						dash := a.litEqC(x, '-')
+						clauses = append(clauses, []int32{dash, -a.litLtC(x, '0')}, []int32{dash, a.litLtC(x, 'z'+1)}, []int32{dash, a.litLtC(x, '9'+1), -a.litLtC(x, 'a')})
+					}
+				}
+				for _, ex := range a.Exits() {
+					if len(ex.Results) != 1 {
+						continue
+					}
+					res := ex.Results[0]
+					us := append([]int32{}, units...)
+					if bv, isC := res.BoolConst(); isC {
+						if bv {
+							continue
+						}
+					} else {
+						us = append(us, -a.litB(res))
+					}
+					nRej++
+					if a.satisfiable(ex.State, us, clauses) {
+						okRej = false
+					}
+				}
+			}
+			rkey := "nns.checkFragment/label/accepts"
+			if root {
+				rkey = "nns.checkFragment/root/accepts"
+			}
+			cx.decide(okRej && nRej > 0, "limits", rkey, "rejects only fragments that break a documented condition", "a fragment that satisfies every documented condition (length, first/last byte, inner bytes) can be rejected", w.pos(fn.Pos()))
 			mkey := "nns.checkFragment/label/inner"
 			if root {
 				mkey = "nns.checkFragment/root/inner"
